@@ -52,10 +52,13 @@ class Obj:
 class Sym:
     """Symbolic application produced when `Folder.symbolic` is set: a term, not a value."""
 
-    def __init__(self, fn, args=(), kw=None):
+    def __init__(self, fn, args=(), kw=None, recv=None, attr=None, index=None):
         self.fn = fn
         self.args = tuple(args)
         self.kw = dict(kw or {})
+        # structure behind the text of fn, where there is one: receiver and member of `recv.attr(...)` / `recv.attr`, receiver and
+        # folded index of `recv[index]` (index is None when it did not fold) -- read by sa.terms.nf
+        self.recv, self.attr, self.index = recv, attr, index
 
     def walk(self):
         yield self
@@ -537,6 +540,12 @@ class Folder:
             left = right
         return True
 
+    def _index_value(self, sl, env):
+        try:
+            return ("value", self.ev(sl, env))
+        except (Refuse, Raised):
+            return None
+
     def _sym_index(self, sl, env):
         """Text of an index expression with its foldable parts folded (symbolic mode).  An index that folds completely is written
         in one canonical way (`:-1, ..., 0`; a trailing ellipsis / trailing full slices are dropped), however it was spelled."""
@@ -569,7 +578,7 @@ class Folder:
         v = self.ev(n.value, env)
         if self.symbolic and isinstance(v, (Opaque, Sym)):
             label = v.label if isinstance(v, Opaque) else repr(v)
-            return Sym(f"{label}[{self._sym_index(n.slice, env)}]")
+            return Sym(f"{label}[{self._sym_index(n.slice, env)}]", recv=v, attr="[]", index=self._index_value(n.slice, env))
         if isinstance(n.slice, ast.Slice):
             lo = self.ev(n.slice.lower, env) if n.slice.lower else None
             hi = self.ev(n.slice.upper, env) if n.slice.upper else None
@@ -600,7 +609,7 @@ class Folder:
         if isinstance(v, Obj) and callable(v.fields.get("__getitem__")) and not isinstance(v.fields.get("__getitem__"), (Opaque, Sym)):
             return v.fields["__getitem__"]([i], {})
         if self.symbolic and isinstance(v, Obj):
-            return Sym(f"{v.label}[{self._sym_index(n.slice, env)}]")
+            return Sym(f"{v.label}[{self._sym_index(n.slice, env)}]", recv=v, attr="[]", index=self._index_value(n.slice, env))
         raise Refuse("subscript of unknown")
 
     def e_Attribute(self, n, env):
@@ -616,7 +625,7 @@ class Folder:
         if self.symbolic and isinstance(v, Sym):
             if v.fn.startswith("namedtuple(") and n.attr in v.kw:
                 return v.kw[n.attr]  # field of a record built in this very fold
-            return Sym(f"{v!r}.{n.attr}")
+            return Sym(f"{v!r}.{n.attr}", recv=v, attr="." + n.attr)
         if self.symbolic and isinstance(v, Opaque) and v.tag == "callable":
             # member of an imported module / class of the repository: an opaque constant named by its dotted path
             return Opaque("callable", f"{v.label}.{n.attr}")
@@ -725,7 +734,15 @@ class Folder:
                 else:
                     args.append(self.ev(a, env))
             kw = self._kwargs(n, env)
-            return getattr(self, "c_" + name.replace(".", "_"))(args, kw)
+            try:
+                return getattr(self, "c_" + name.replace(".", "_"))(args, kw)
+            except (Refuse, TypeError, AttributeError):
+                if not (self.symbolic and (name.startswith("np.") or name in ("set", "list", "tuple", "sorted", "len", "abs", "min", "max", "frozenset")) and any(isinstance(x, (Sym, Opaque)) for a_ in list(args) + list(kw.values()) for x in (a_ if isinstance(a_, (list, tuple)) else [a_]))):
+                    raise
+                # a numpy routine applied to symbolic operands stays a term
+                sy = Sym(name, args, kw)
+                self.trace.append(sy)
+                return sy
         if isinstance(f, ast.Attribute) and not (isinstance(f.value, ast.Name) and f.value.id in ("np", "numpy", "math", "darsia", "da")):
             try:
                 return self.method_call(n, env)
@@ -815,7 +832,7 @@ class Folder:
                         sy = Sym(fld.label, args, kw)
                         self.trace.append(sy)
                         return sy
-                    sy = Sym(f"{label}.{f.attr}", args, kw)
+                    sy = Sym(f"{label}.{f.attr}", args, kw, recv=recv, attr=f.attr)
                     self.trace.append(sy)
                     return sy
             label = " ".join(ast.unparse(f).split())
@@ -946,6 +963,11 @@ class Folder:
         return max(xs)
 
     def c_sum(self, a, kw):
+        if self.symbolic and isinstance(a[0], (list, tuple)) and any(isinstance(x, (Sym, Opaque)) for x in a[0]):
+            t = None  # the neutral start value is not written into the term
+            for x in a[0]:
+                t = x if t is None else Sym("+", [t, x])
+            return t
         t = 0
         for x in a[0]:
             t = _binop(ast.Add(), t, x)
